@@ -22,6 +22,12 @@ NT = NewType("NT", int)
 class TD(TypedDict):
     a: int
     b: NotRequired[str]
+class TDB(TypedDict, total=False):
+    b: str
+class TDC(TDB):
+    pass
+class TDD(TDB):
+    c: NotRequired[int]
 @dataclasses.dataclass(frozen=True)
 class DC:
     x: int
